@@ -54,6 +54,61 @@ func healthySession(r *Rng, n int, signals bool) *session {
 	return s
 }
 
+// errorSession: a healthy session in which the server ends one run the hard (but protocol-conforming) way: with a
+// server-fatal error message, or with a step-fatal error message that carries no run id (what the real server sends for a
+// work start without step id).  Both are fanned out by the client to EVERY pending Execute - whether or not it
+// registered a channel for emitted signals - and only the server-fatal one ends the read loop.  The real server goes on
+// reporting the runs that are still executing, so the other runs keep their own terminal messages.
+func errorSession(r *Rng, n int, signals bool) *session {
+	s := healthySession(r, n, signals)
+	// An error fan-out can end a read loop while answers for the failed runs are still in its decoder's read-ahead.  The
+	// model's read-ahead is whole messages; on an unfragmented transport so is the decoder's (a Read returns whole
+	// messages), so the model is exact.  (With fragmented reads the next loop may start inside a message: C08's sessions.)
+	s.frag = 0
+	var terms []int
+	for j, m := range s.script {
+		if m.kind == "done" || m.kind == "stepfatal" {
+			terms = append(terms, j)
+		}
+	}
+	j := terms[r.Intn(len(terms))]
+	s.script[j].kind = []string{"svfatal", "stepfatal_norun"}[r.Intn(2)]
+	return s
+}
+
+// reuseSession: run ids are RE-USED - by a later Execute on the same harness goroutine (the earlier one has returned: an
+// ordinary call), or by an Execute on another goroutine (while the earlier one is pending it is refused with an error,
+// afterwards it is an ordinary call).  The peer answers every work start it accepts: the script holds one segment
+// (signals/notices, then a terminal message) per call; a segment is used when the k-th work start of that run id has
+// been accepted, the segment of a refused call is never used.  These sessions are outside the model's good sessions
+// (distinct run ids): they are explored on the implementation and judged by the property's own predicate.
+func reuseSession(r *Rng, n int, signals bool) *session {
+	s := healthySession(r, n, signals)
+	// at least one duplicate: every call after the first takes the id of an earlier call with probability 1/2
+	dup := false
+	for i := 1; i < n; i++ {
+		if r.Intn(2) == 0 || (i == n-1 && !dup) {
+			s.calls[i].run = s.calls[r.Intn(i)].run
+			dup = true
+		}
+	}
+	// the script follows the calls: rebuild it with the final run ids
+	old := s.script
+	s.script = nil
+	k := 0
+	for i := range s.calls {
+		for ; k < len(old); k++ {
+			m := old[k]
+			s.script = append(s.script, pmsg{s.calls[i].run, m.kind})
+			if m.kind == "done" || m.kind == "stepfatal" {
+				k++
+				break
+			}
+		}
+	}
+	return s
+}
+
 func choicesNode(r *Rng, n int) *sx.Node {
 	l := sx.L(sx.A("choices"))
 	for i := 0; i < n; i++ {
@@ -72,6 +127,31 @@ func fixedSmall() []*session {
 	return []*session{one, serial2, par2, oneClose, oneSig}
 }
 
+// fixedError: small sessions with the two error fan-outs (server-fatal; step-fatal without run id), the second run
+// pending or started later, with and without a channel for emitted signals.
+func fixedError() []*session {
+	parFatal := &session{wfail: -1, faultN: -1, close: true, calls: []call{{run: "a", sigTo: -1, sigFrom: true}, {run: "b", lane: 1, sigTo: -1}},
+		script: []pmsg{{"a", "svfatal"}, {"b", "done"}}}
+	serNorun := &session{wfail: -1, faultN: -1, close: true, calls: []call{{run: "a", sigTo: -1}, {run: "b", sigTo: -1}},
+		script: []pmsg{{"a", "stepfatal_norun"}, {"b", "done"}}}
+	parNorun := &session{wfail: -1, faultN: -1, close: true, calls: []call{{run: "a", sigTo: -1}, {run: "b", lane: 1, sigTo: -1, sigFrom: true}},
+		script: []pmsg{{"a", "stepfatal_norun"}, {"b", "done"}}}
+	return []*session{parFatal, serNorun, parNorun}
+}
+
+// fixedReuse: the small sessions that re-use a run id.
+func fixedReuse() []*session {
+	serial := &session{wfail: -1, faultN: -1, close: true, calls: []call{{run: "a", sigTo: -1, sigFrom: true}, {run: "a", sigTo: -1}},
+		script: []pmsg{{"a", "signal"}, {"a", "done"}, {"a", "done"}}}
+	serialFail := &session{wfail: -1, faultN: -1, calls: []call{{run: "a", sigTo: -1}, {run: "a", sigTo: -1}, {run: "a", sigTo: -1, sigFrom: true}},
+		script: []pmsg{{"a", "stepfatal"}, {"a", "done"}, {"a", "done"}}}
+	overlap := &session{wfail: -1, faultN: -1, close: true, calls: []call{{run: "a", sigTo: -1}, {run: "a", lane: 1, sigTo: -1}},
+		script: []pmsg{{"a", "done"}, {"a", "done"}}}
+	overlap3 := &session{wfail: -1, faultN: -1, close: true, calls: []call{{run: "a", sigTo: -1, sigFrom: true}, {run: "b", lane: 1, sigTo: -1}, {run: "a", lane: 2, sigTo: -1}},
+		script: []pmsg{{"a", "done"}, {"b", "done"}, {"a", "stepfatal"}}}
+	return []*session{serial, serialFail, overlap, overlap3}
+}
+
 func genCases(kind, tier string, seed uint64, outPath string) {
 	out, err := os.Create(outPath)
 	if err != nil {
@@ -87,10 +167,12 @@ func genCases(kind, tier string, seed uint64, outPath string) {
 	switch kind {
 	case "c06":
 		enumMax := 400
-		nRandom := 500
+		nRandom := 460
+		nError := 50
 		if tier == "thorough" {
 			enumMax = 20000
 			nRandom = 8000
+			nError = 1500
 		}
 		for _, s := range fixedSmall() {
 			emit("atpclient", s, sx.L(sx.A("enum"), sx.I(int64(enumMax))))
@@ -100,10 +182,23 @@ func genCases(kind, tier string, seed uint64, outPath string) {
 			s := healthySession(r, n, r.Intn(3) > 0)
 			emit("atpclient", s, choicesNode(r, 60+40*n))
 		}
+		// error fan-outs: the fixed small ones several times (different random schedules), then generated ones
+		for rep := 0; rep < 3; rep++ {
+			for _, s := range fixedError() {
+				emit("atpclient", s, choicesNode(r, 140))
+			}
+		}
+		for i := 0; i < nError; i++ {
+			n := 2 + r.Intn(3)
+			s := errorSession(r, n, r.Intn(3) > 0)
+			emit("atpclient", s, choicesNode(r, 60+40*n))
+		}
 	case "c06x": // sessions for the search on the implementation
 		nSess := 14
+		nErr, nReuse := 4, 6
 		if tier == "thorough" {
 			nSess = 80
+			nErr, nReuse = 40, 60
 		}
 		for _, s := range fixedSmall() {
 			emit("atpexplore", s, sx.L(sx.A("delay2"), sx.I(400), sx.I(int64(r.Intn(1<<30)))))
@@ -115,6 +210,45 @@ func genCases(kind, tier string, seed uint64, outPath string) {
 				emit("atpexplore", s, sx.L(sx.A("random"), sx.I(int64(r.Intn(1<<30))), sx.I(25)))
 			} else {
 				emit("atpexplore", s, sx.L(sx.A("delay2"), sx.I(60), sx.I(int64(r.Intn(1<<30)))))
+			}
+		}
+		// error fan-outs and re-used run ids
+		for _, s := range fixedError() {
+			emit("atpexplore", s, sx.L(sx.A("delay2"), sx.I(60), sx.I(int64(r.Intn(1<<30)))))
+		}
+		for i := 0; i < nErr; i++ {
+			s := errorSession(r, 2+r.Intn(3), r.Intn(2) == 0)
+			emit("atpexplore", s, sx.L(sx.A("random"), sx.I(int64(r.Intn(1<<30))), sx.I(20)))
+		}
+		for _, s := range fixedReuse() {
+			emit("atpexplore", s, sx.L(sx.A("delay2"), sx.I(60), sx.I(int64(r.Intn(1<<30)))))
+		}
+		for i := 0; i < nReuse; i++ {
+			s := reuseSession(r, 2+r.Intn(3), r.Intn(2) == 0)
+			if i%2 == 0 {
+				emit("atpexplore", s, sx.L(sx.A("random"), sx.I(int64(r.Intn(1<<30))), sx.I(20)))
+			} else {
+				emit("atpexplore", s, sx.L(sx.A("delay2"), sx.I(40), sx.I(int64(r.Intn(1<<30)))))
+			}
+		}
+	case "c05x": // C05: results are never lost, duplicated or delivered to another call, under controlled interleavings
+		nSess := 6
+		if tier == "thorough" {
+			nSess = 60
+		}
+		for _, s := range fixedSmall() {
+			emit("atpexplore", s, sx.L(sx.A("delay2"), sx.I(250), sx.I(int64(r.Intn(1<<30)))))
+		}
+		for _, s := range fixedReuse()[:2] { // run ids re-used one call after the other: ordinary calls
+			emit("atpexplore", s, sx.L(sx.A("delay2"), sx.I(100), sx.I(int64(r.Intn(1<<30)))))
+		}
+		for i := 0; i < nSess; i++ {
+			n := 2 + r.Intn(3)
+			s := healthySession(r, n, r.Intn(2) == 0)
+			if i%2 == 0 {
+				emit("atpexplore", s, sx.L(sx.A("random"), sx.I(int64(r.Intn(1<<30))), sx.I(20)))
+			} else {
+				emit("atpexplore", s, sx.L(sx.A("delay2"), sx.I(40), sx.I(int64(r.Intn(1<<30)))))
 			}
 		}
 	default:
